@@ -27,8 +27,8 @@ import Cx.Spec.ReRef
   * `re-spec at hayhex ast`           → the AST-level specification: Spec.plusFind for `cls+`/`cls+?`, Spec.compFind over
                                         Spec.astParts for a concatenation of quantified classes (`nil-spec` otherwise)
   * `re-ref at hayhex ast`            → Ref.refFind: the general leftmost-first reference matcher of Cx.Spec.ReRef
-  * `re-bdspec hayhex ast`            → `nil-frag` unless `bdFrag re`; else `altFind` over the branches (the specification the
-                                        BranchDispatcher is proved exact for)
+  * `re-bdspec hayhex ast`            → `nil-frag` unless `IsBranchDispatchPattern re`; else `Ref.refFind re h 0` (the reference
+                                        semantics of the whole pattern, which the BranchDispatcher is proved equal to)
   * `re-fbfrag ast`                   → whether the pattern lies in the fragment `fbFrag` on which the first-byte filter is
                                         proved sound
   * `re-anchlit info|match hayhex ast` → DetectAnchoredLiteral: `nil` or `prefix/suffix/tbl/ccMin/wMin/minLen/dotNL` (tbl may be
@@ -37,9 +37,51 @@ import Cx.Spec.ReRef
   * `re-fb ast`                       → ExtractFirstBytes: `nil` or `count/complete/tblhex`
   * `re-bd is|search|ismatch hayhex ast` → IsBranchDispatchPattern; Search/IsMatch of the dispatcher meta builds
                                         (`nil-searcher` when NewBranchDispatcher fails)
+
+  `unicode.SimpleFold(r) != r` (used by the BranchDispatcher for `FoldCase` literals) is not part of the wire format:
+  the model takes it as the parameter `hasFold`, and THIS driver supplies `hasSimpleFold`, a range table generated from
+  Go's `unicode` package (see `simpleFoldRanges`; regenerate with `gocheck/gen` when the toolchain's Unicode version
+  changes).  The exactness theorem (`C19_branchDispatcher`) holds for every `hasFold` that is `true` on the ASCII
+  letters; `hasSimpleFold_sound` below checks that for the table.  Request and answer formats are unchanged.
 -/
 namespace Cx.DriverFast
 open Cx Cx.Fast
+
+/-- all runes `r` with `unicode.SimpleFold(r) != r`, as inclusive ranges
+    (go1.25.4, Unicode 15.0.0: 2878 runes in 141 ranges) -/
+def simpleFoldRanges : List (Nat × Nat) := [
+  (0x41, 0x5A), (0x61, 0x7A), (0xB5, 0xB5), (0xC0, 0xD6), (0xD8, 0xF6), (0xF8, 0x12F), (0x132, 0x137), (0x139, 0x148),
+  (0x14A, 0x18C), (0x18E, 0x19A), (0x19C, 0x1A9), (0x1AC, 0x1B9), (0x1BC, 0x1BD), (0x1BF, 0x1BF), (0x1C4, 0x1EF), (0x1F1, 0x220),
+  (0x222, 0x233), (0x23A, 0x254), (0x256, 0x257), (0x259, 0x259), (0x25B, 0x25C), (0x260, 0x261), (0x263, 0x263), (0x265, 0x266),
+  (0x268, 0x26C), (0x26F, 0x26F), (0x271, 0x272), (0x275, 0x275), (0x27D, 0x27D), (0x280, 0x280), (0x282, 0x283), (0x287, 0x28C),
+  (0x292, 0x292), (0x29D, 0x29E), (0x345, 0x345), (0x370, 0x373), (0x376, 0x377), (0x37B, 0x37D), (0x37F, 0x37F), (0x386, 0x386),
+  (0x388, 0x38A), (0x38C, 0x38C), (0x38E, 0x38F), (0x391, 0x3A1), (0x3A3, 0x3AF), (0x3B1, 0x3D1), (0x3D5, 0x3F5), (0x3F7, 0x3FB),
+  (0x3FD, 0x481), (0x48A, 0x52F), (0x531, 0x556), (0x561, 0x586), (0x10A0, 0x10C5), (0x10C7, 0x10C7), (0x10CD, 0x10CD), (0x10D0, 0x10FA),
+  (0x10FD, 0x10FF), (0x13A0, 0x13F5), (0x13F8, 0x13FD), (0x1C80, 0x1C88), (0x1C90, 0x1CBA), (0x1CBD, 0x1CBF), (0x1D79, 0x1D79), (0x1D7D, 0x1D7D),
+  (0x1D8E, 0x1D8E), (0x1E00, 0x1E95), (0x1E9B, 0x1E9B), (0x1E9E, 0x1E9E), (0x1EA0, 0x1F15), (0x1F18, 0x1F1D), (0x1F20, 0x1F45), (0x1F48, 0x1F4D),
+  (0x1F51, 0x1F51), (0x1F53, 0x1F53), (0x1F55, 0x1F55), (0x1F57, 0x1F57), (0x1F59, 0x1F59), (0x1F5B, 0x1F5B), (0x1F5D, 0x1F5D), (0x1F5F, 0x1F7D),
+  (0x1F80, 0x1FB1), (0x1FB3, 0x1FB3), (0x1FB8, 0x1FBC), (0x1FBE, 0x1FBE), (0x1FC3, 0x1FC3), (0x1FC8, 0x1FCC), (0x1FD0, 0x1FD1), (0x1FD8, 0x1FDB),
+  (0x1FE0, 0x1FE1), (0x1FE5, 0x1FE5), (0x1FE8, 0x1FEC), (0x1FF3, 0x1FF3), (0x1FF8, 0x1FFC), (0x2126, 0x2126), (0x212A, 0x212B), (0x2132, 0x2132),
+  (0x214E, 0x214E), (0x2160, 0x217F), (0x2183, 0x2184), (0x24B6, 0x24E9), (0x2C00, 0x2C70), (0x2C72, 0x2C73), (0x2C75, 0x2C76), (0x2C7E, 0x2CE3),
+  (0x2CEB, 0x2CEE), (0x2CF2, 0x2CF3), (0x2D00, 0x2D25), (0x2D27, 0x2D27), (0x2D2D, 0x2D2D), (0xA640, 0xA66D), (0xA680, 0xA69B), (0xA722, 0xA72F),
+  (0xA732, 0xA76F), (0xA779, 0xA787), (0xA78B, 0xA78D), (0xA790, 0xA794), (0xA796, 0xA7AE), (0xA7B0, 0xA7CA), (0xA7D0, 0xA7D1), (0xA7D6, 0xA7D9),
+  (0xA7F5, 0xA7F6), (0xAB53, 0xAB53), (0xAB70, 0xABBF), (0xFF21, 0xFF3A), (0xFF41, 0xFF5A), (0x10400, 0x1044F), (0x104B0, 0x104D3), (0x104D8, 0x104FB),
+  (0x10570, 0x1057A), (0x1057C, 0x1058A), (0x1058C, 0x10592), (0x10594, 0x10595), (0x10597, 0x105A1), (0x105A3, 0x105B1), (0x105B3, 0x105B9), (0x105BB, 0x105BC),
+  (0x10C80, 0x10CB2), (0x10CC0, 0x10CF2), (0x118A0, 0x118DF), (0x16E40, 0x16E7F), (0x1E900, 0x1E943)]
+
+/-- `unicode.SimpleFold(r) != r` -/
+def hasSimpleFold (r : Nat) : Bool := simpleFoldRanges.any fun p => decide (p.1 ≤ r) && decide (r ≤ p.2)
+
+/-- the table is `true` on the ASCII letters: the side condition `FoldSound` of the exactness theorem -/
+theorem hasSimpleFold_sound : FoldSound hasSimpleFold := by
+  intro r hr
+  unfold Ref.isAsciiLetter at hr
+  simp only [Bool.or_eq_true, Bool.and_eq_true, decide_eq_true_eq] at hr
+  unfold hasSimpleFold simpleFoldRanges
+  rw [List.any_cons, List.any_cons]
+  rcases hr with ⟨h1, h2⟩ | ⟨h1, h2⟩
+  · simp [h1, h2]
+  · simp [h1, h2]
 
 def parseTable (s : String) : Option Table := do
   let b ← parseHex s
@@ -180,7 +222,7 @@ def handle? (toks : List String) : Option String :=
   | ["re-bdspec", hex, ast] => some <|
     match parseHex hex, parseAst ast with
     | some h, some re =>
-      if bdFrag re then Driver.showSpan (altFind ((bdBranches re).map branchOf) h) else "nil-frag"
+      if isBranchDispatchPattern hasSimpleFold re then Driver.showSpan (Ref.refFind re h 0) else "nil-frag"
     | _, _ => "bad-op"
   | ["re-fbfrag", ast] => some <|
     match parseAst ast with
@@ -207,8 +249,8 @@ def handle? (toks : List String) : Option String :=
   | ["re-bd", op, hex, ast] => some <|
     match parseHex hex, parseAst ast with
     | some h, some re =>
-      if op = "is" then toString (isBranchDispatchPattern re) else
-      match metaBranchDispatcher re with
+      if op = "is" then toString (isBranchDispatchPattern hasSimpleFold re) else
+      match metaBranchDispatcher hasSimpleFold re with
       | none => "nil-searcher"
       | some d =>
         match op with
